@@ -47,6 +47,15 @@ type SSpec struct {
 	Creds    string            `json:"creds,omitempty"`     // token | userpass | none
 	UseStart bool              `json:"use_start,omitempty"` // replicate from the collection's start position
 	BadPos   string            `json:"bad_pos,omitempty"`
+	Kafka    bool              `json:"kafka,omitempty"` // Kafka downstream (producer stubbed); Target is ignored
+}
+
+// tgt is the index of the simulated downstream Milvus, -1 for a Kafka downstream.
+func (sp *SSpec) tgt() int {
+	if sp.Kafka {
+		return -1
+	}
+	return sp.Target % 2
 }
 
 type SOp struct {
@@ -280,6 +289,9 @@ func genSOps(rng *Rng, sc *SScript, prop string) {
 				}
 				sp.UserRole = rng.Pct(20)
 				sp.NoAuto = rng.Pct(15)
+				if prop == "C18" && rng.Pct(35) {
+					sp.Kafka = true
+				}
 				if rng.Pct(20) && sp.Coll != "*" {
 					sdb := sp.DB
 					if sdb == "" {
@@ -314,7 +326,7 @@ func genSOps(rng *Rng, sc *SScript, prop string) {
 		if rng.Pct(20) {
 			sc.Faults["tq_err"] = 1
 		}
-		if prop == "C11" || prop == "C10" {
+		if prop == "C11" || prop == "C10" || prop == "C18" {
 			sc.Knobs.Crashes = rng.Range(0, 1)
 		}
 		if prop == "C19" {
